@@ -28,7 +28,7 @@ fn main() {
     match a[1].as_str() {
         "c01-record" => c01::record(n(2) as u64, n(3), n(4), &a[5], &a[6..]),
         "c01-replay" => c01::replay(&a[2], &a[3], &a[4]),
-        "c02-replay" => c02::replay(&a[2], &a[3]),
+        "c02-replay" => c02::replay(&a[2], &a[3], a.get(4), a.get(5)),
         "c02-record" => c02::record(n(2) as u64, n(3), n(4), &a[5]),
         "c04-replay" => c04::replay(&a[2], &a[3], &a[4]),
         "c04-record" => c04::record(n(2) as u64, n(3), &a[4]),
